@@ -43,6 +43,7 @@ def step (s : DState) (toks : List String) : DState × String :=
     match parseSel rest with
     | none => (s, "bad-op")
     | some sel => ({ s with cfg := { s.cfg with always := s.cfg.always ++ [sel] } }, (selStatus sel s.pod.labels).tok)
+  | "irr" :: _ => (s, "ok")   -- fields outside the listed inputs: the model has no place for them
   | ["eval"] => (s, boolTok (injectRequiredC ignoredNamespaces s.cfg s.pod))
   -- inject stream (trace written by `harness/c19 exec inject`)
   | "src" :: _ => (s, "ok")
@@ -77,6 +78,10 @@ def step (s : DState) (toks : List String) : DState × String :=
                 else if w == "twice" then { o with twice := some p } else o
       ({ s with obs := o', cur := none }, "ok")
   | "status" :: st :: _ => ({ s with obs := { s.obs with status := st } }, "ok")
+  -- `refusal` closes the decision inputs (pod / policy / never / always lines before it): the documented decision of
+  -- this admission is the concrete model of the cascade on them (= specDecision of their abstraction, `concrete_eq_spec`)
+  | ["refusal", r] =>
+    ({ s with obs := { s.obs with refusal := r, expect := some (injectRequiredC ignoredNamespaces s.cfg s.pod) } }, "ok")
   | ["check"] => (s, (judge s.obs).render)
   | _ => (s, "bad-op")
 
